@@ -120,7 +120,12 @@ ElemCopy::startElement(StylesheetExecutionContext&  executionContext) const
         {
             ElemUse::startElement(executionContext);
 
-            executionContext.copyNamespaceAttributes(*sourceNode);
+            // Inside an attribute, comment or processing instruction only
+            // text nodes are copied, so no element has been started.
+            if (executionContext.getCopyTextNodesOnly() == false)
+            {
+                executionContext.copyNamespaceAttributes(*sourceNode);
+            }
 
             return beginExecuteChildren(executionContext);
         }
@@ -166,7 +171,10 @@ ElemCopy::endElement(StylesheetExecutionContext& executionContext) const
         {
             endExecuteChildren(executionContext);
 
-            executionContext.endElement(sourceNode->getNodeName().c_str());
+            if (executionContext.getCopyTextNodesOnly() == false)
+            {
+                executionContext.endElement(sourceNode->getNodeName().c_str());
+            }
 
             ElemUse::endElement(executionContext);
         }
@@ -205,11 +213,20 @@ ElemCopy::execute(StylesheetExecutionContext&   executionContext) const
         {
             ElemUse::execute(executionContext);
 
-            executionContext.copyNamespaceAttributes(*sourceNode);
+            const bool  fElementStarted =
+                executionContext.getCopyTextNodesOnly() == false;
+
+            if (fElementStarted == true)
+            {
+                executionContext.copyNamespaceAttributes(*sourceNode);
+            }
 
             executeChildren(executionContext);
 
-            executionContext.endElement(sourceNode->getNodeName().c_str());
+            if (fElementStarted == true)
+            {
+                executionContext.endElement(sourceNode->getNodeName().c_str());
+            }
         }
         else
         {
